@@ -26,6 +26,8 @@ def r_fold(ctx, chk):
         chk.instance('R-FOLD', 'Parser::feed', 'exists', False, what='Parser::feed not found', undischarged=True)
         return
     loops, back, idom, preds = body.loops()
+    if len(loops) == 0 and r_fold_for_each(ctx, chk, body):
+        return
     chk.instance('R-FOLD', 'Parser::feed', 'single loop', len(loops) == 1, detail='%d loops' % len(loops), span=body.span,
                  what='Parser::feed must consist of exactly one loop over the input characters (found %d loops)' % len(loops))
     if len(loops) != 1:
@@ -95,6 +97,51 @@ def r_fold(ctx, chk):
     chk.instance('R-FOLD', 'Parser::feed', 'loop body does not re-read data', not uses_data, detail='blocks %s' % uses_data, span=body.span,
                  what='the loop body of Parser::feed looks at the whole chunk again (blocks %s): the result could depend on the chunking' % uses_data)
     # empty chunk: zero iterations -> nothing happens (follows from the three clauses above)
+
+
+def r_fold_for_each(ctx, chk, body):
+    """the same fold written `data.chars().for_each(|c| ..)`: one for_each over the character iterator of
+    `data`, its closure does not capture `data`, nothing with an effect and no store through self outside it"""
+    prog = ctx.prog
+    fe = [(bi, t) for bi, t in prog.calls(body) if (cname(prog, t) or '').endswith('Iterator::for_each')]
+    if len(fe) != 1:
+        return False
+    bi, t = fe[0]
+    recv_ty = t['args'][0]['place']['ty'] if t['args'] and t['args'][0].get('place') else ''
+    clos = [c for c in prog.closures_of.get(PFEED, [])]
+    cty = t['args'][1]['place']['ty'] if len(t['args']) > 1 and t['args'][1].get('place') else ''
+    mine = [c for c in clos if c.split('::')[-1] in cty or cty.endswith(c.split('::')[-1] + ']')]
+    chk.instance('R-FOLD', 'Parser::feed', 'single loop', True, detail='one for_each over %s' % recv_ty, span=body.span)
+    ok = 'Chars' in recv_ty or 'CharIndices' in recv_ty
+    chk.instance('R-FOLD', 'Parser::feed', 'loop iterates the characters', ok, detail='for_each on %s' % recv_ty, span=t['span'],
+                 what='the for_each of Parser::feed is not over a character iterator (%s)' % recv_ty)
+    outside_calls = [cname(prog, t2) or '?' for b2, t2 in prog.calls(body) if b2 != bi]
+    src_ok = any(n.endswith('<impl str>::chars') or n.endswith('<impl str>::char_indices') for n in outside_calls)
+
+    def effectful(n):
+        return n in prog.bodies or any(x in n for x in ('generator::', 'Gn::', '::send', '::resume', 'Mutex', '::lock', 'ParserListener'))
+    extra = [n for n in outside_calls if effectful(n)]
+    chk.instance('R-FOLD', 'Parser::feed', 'nothing with an effect outside the loop', src_ok and not extra,
+                 detail='calls outside the per-character closure: %s' % outside_calls, span=body.span,
+                 what='calls outside the per-character closure: %s (only the iterator set-up over data.chars() is allowed)' % extra)
+    stores = []
+    for b2, bb in enumerate(body.blocks):
+        if bb['cleanup']:
+            continue
+        for s_ in bb['stmts']:
+            if s_['k'] == 'assign' and s_['place']['local'] == 1 and any(e['k'] == 'deref' for e in s_['place']['proj']):
+                stores.append(b2)
+    chk.instance('R-FOLD', 'Parser::feed', 'no state change outside the loop', not stores, detail='stores through self outside the closure: %s' % stores,
+                 span=body.span, what='Parser::feed writes parser state outside its per-character closure (blocks %s)' % stores)
+    caps = []
+    for c in clos:
+        cb = prog.bodies.get(c)
+        for u in (cb.j.get('upvars', []) if cb is not None else []):
+            if 'data' in u.get('name', '').replace('*', '').split('.')[:1] or u.get('name', '').strip('*&() ') == 'data':
+                caps.append((c.split('::')[-1], u.get('name')))
+    chk.instance('R-FOLD', 'Parser::feed', 'loop body does not re-read data', not caps, detail='captures of the chunk: %s' % caps, span=body.span,
+                 what='the per-character closure of Parser::feed captures the whole chunk (%s): the result could depend on the chunking' % caps)
+    return True
 
 
 def bytes_as_code_points(eng, st, a, pr=None):
